@@ -22,7 +22,7 @@ CLAIMED = {
 }
 
 CLAIMED.update({
-    "C18": ("fault_enumeration", "3 C18", TECH + "SIGINT delivered at every (thorough) / a stratified sample (quick) of scheduler steps of a base run, plus process exit as a crash point, plus write-level faults from the preload shim (TMPDIR full after N bytes = ENOSPC, stdout reader gone after N bytes = EPIPE, reads failing after N bytes = EIO, alone and with a SIGINT); oracle = private TMPDIR empty after exit, exit within a step bound after the last signal, no crash/deadlock, after EPIPE stdout is a prefix of the fault-free output",
+    "C18": ("fault_enumeration", "3 C18", TECH + "SIGINT delivered at every (thorough) / a stratified sample (quick) of scheduler steps of a base run, plus process exit as a crash point, with SIGINT's disposition as a seam (sigaction / signal for SIGINT recorded by the preload shim: a handler that restores SIG_DFL makes the next signal fatal), plus write-level faults from the preload shim (TMPDIR full after N bytes = ENOSPC, stdout reader gone after N bytes = EPIPE, reads failing after N bytes = EIO, alone and with a SIGINT); oracle = private TMPDIR empty after exit, exit within a step bound after the last signal, no crash/deadlock, after EPIPE stdout is a prefix of the fault-free output",
             "Crash-point enumeration over the simulated signal thread: the real handler closure, the real temp-file code and "
             "the real coordinator run under the baton scheduler; leaks are classified by life-cycle position."),
     "C17": ("exploration", "3 C17", TECH + "same log generator at n, 2n, 4n blocks under adversarial schedules (starved coordinator / worker); --summary high-water marks must be flat and under a computed bound",
@@ -34,7 +34,7 @@ CLAIMED.update({
 })
 
 CLAIMED.update({
-    "C02": ("exploration", "3 C02", TECH + "exactly-once / byte-exact reassembly oracle (model + separator-marker split) over simulated end-to-end runs with block-boundary-targeted content, under seeded schedules",
+    "C02": ("exploration", "3 C02", TECH + "exactly-once / byte-exact reassembly oracle (model + separator-marker split) over simulated end-to-end runs with block-boundary-targeted content (eight stamp notations, messages of up to thousands of lines), a growing-file case (another process appends to the log at a scheduler step: the output must be the file as it was when opened), under seeded schedules",
             "History oracle over the worker->channel->printer path with the reader concurrently dropping data; block size, "
             "containers and schedules sampled. The schedule is a nuisance dimension here (C06 says it must not matter)."),
     "C03": ("exploration", "3 C03", TECH + "reference filter model A<=t<=B on instants known by construction; bounds placed on/around message instants; binary-search and linear-search readers; under seeded schedules",
